@@ -179,6 +179,7 @@ type Leaf struct {
 // Sequences contribute their length and per-leaf arrays; coins contribute (Len, DenomAt, AmtAt, M).
 func leavesOf(t types.Type) []Leaf {
 	var out []Leaf
+	seenPtr := map[string]bool{}
 	var walk func(t types.Type, path string)
 	walk = func(t types.Type, path string) {
 		if s, ok := leafSortOf(t); ok {
@@ -213,8 +214,15 @@ func leavesOf(t types.Type) []Leaf {
 				out = append(out, Leaf{path + "[]" + l.Path, ArrSort(SInt, l.Sort)})
 			}
 		case *types.Pointer:
-			// pointer fields inside marshalled messages do not occur in this module's state types
-			out = append(out, Leaf{path + "#ptr", SInt})
+			// a pointer FIELD of a struct that is stored in a sequence / symbolic heap is stored BY VALUE
+			// (assumption A-VALSEQ, see flatten): the pointee's leaves. Marshalled state types have no such fields.
+			if _, isStruct := u.Elem().Underlying().(*types.Struct); isStruct && path != "" && !seenPtr[typeKey(u.Elem())] {
+				seenPtr[typeKey(u.Elem())] = true
+				walk(u.Elem(), path+"*")
+				delete(seenPtr, typeKey(u.Elem()))
+			} else {
+				out = append(out, Leaf{path + "#ptr", SInt})
+			}
 		default:
 			out = append(out, Leaf{path + "#opaque", SInt})
 		}
